@@ -376,6 +376,44 @@ def r8(ctx):
                     'the reader takes R[k]/X[k] by position', fi.loc(c))
 
 
+def r9(ctx):
+    """every column entry is the row's own quantity (units are converted by astropy, never relabelled)."""
+    from ..vg import mark_quantity, PIX, unq
+    m = ctx.model
+    ser, row_writer, par, row_reader, rmod = _funcs(m)
+    wmod = m.modules[ser.module]
+    col_fn = None
+    for fi in wmod.functions.values():
+        if any((call_name(c) or '').endswith('.pad') for c in calls_in(fi.node)):
+            col_fn = fi
+    ctx.need(col_fn is not None, 'fits write', 'column builder not found')
+    ev = Evaluator(m)
+    q0 = mark_quantity(sp.Symbol('rotang0', real=True))
+    q1 = mark_quantity(sp.Symbol('rotang1', real=True))
+    t = ev.call(col_fn, [Tup((Tup((q0,), 'array'), Tup((q1,), 'array')), 'list')], {})
+    construct = col_fn.qualname.split(':')[1]
+    ok = isinstance(t, App) and t.name.endswith('Quantity') and len(t.args) == 1 and isinstance(t.args[0], Tup) and \
+        len(t.args[0].items) == 2 and all(is_num(unq(g)) and sp.simplify(unq(g) - w) == 0
+                                          for g, w in zip(t.args[0].items, (q0, q1)))
+    if ok:
+        ctx.ok(construct + ':quantities', 'angle rows enter the column as their own quantities (common unit by conversion)')
+    else:
+        ctx.bad(construct, 'unit-relabelled',
+                f'a column of two angle rows is built as {show(t, 300)}: rows must enter as their own Quantity so that astropy '
+                'converts them to one unit; stripping .value and attaching another row\'s unit relabels the number '
+                '(0.4 rad becomes 0.4 deg)', col_fn.loc())
+    x0, x1 = sym('x0'), sym('x1')
+    t = ev.call(col_fn, [Tup((Tup((x0,), 'array'), Tup((x1,), 'array')), 'list')], {})
+    ok = isinstance(t, App) and t.name.endswith('Quantity') and isinstance(t.args[0], Tup) and (all(
+        is_num(unq(g)) and sp.simplify(unq(g) - w * PIX) == 0 for g, w in zip(t.args[0].items, (x0, x1))) or (
+        len(t.args) == 2 and is_num(t.args[1]) and t.args[1] == PIX and all(
+            is_num(g) and sp.simplify(g - w) == 0 for g, w in zip(t.args[0].items, (x0, x1)))))
+    if ok:
+        ctx.ok(construct + ':pixels', 'plain rows get pixel units')
+    else:
+        ctx.bad(construct, 'pixel-unit', f'a column of plain rows is built as {show(t, 300)}; expected value*pix per row', col_fn.loc())
+
+
 RULES = [
     RuleDef('R1', 'SHAPE name pipeline x include (writer name known to reader; "!" iff excluded)', r1, 8),
     RuleDef('R2', 'semi-axis halving/doubling agreement x include', r2, 7),
@@ -385,4 +423,5 @@ RULES = [
     RuleDef('R6', 'serialisers do not mutate the regions', r6, 2),
     RuleDef('R7', 'fresh component numbers', r7, 1),
     RuleDef('R8', 'column padding keeps value positions', r8, 1),
+    RuleDef('R9', 'column entries keep their own units (converted, never relabelled)', r9, 2),
 ]
